@@ -9,11 +9,13 @@ var Registry = map[string]func(*core.Ctx) error{
 	"C03": C03,
 	"C04": C04,
 	"C05": C05,
+	"C06": C06,
 	"C07": C07,
 	"C08": C08,
 }
 
 // Workers are child-process entry points (journalled batches of cases that may crash or hang).
 var Workers = map[string]func(args []string) int{
-	"fault-worker": FaultWorker,
+	"fault-worker":  FaultWorker,
+	"direct-worker": DirectWorker,
 }
